@@ -3,10 +3,11 @@
 # (RKCOMMON_REPO), so /repo itself stays untouched;  usage: tools/seedall.sh [ID ...]
 # seeds that only the thorough tier is expected to catch (sizes / distances of 2^31.. / 64 MiB.. / 4 MiB..) run that tier
 cd "$(dirname "$0")/.."
-THOROUGH=" C11-D C19-C C20-C C20-D C16-F "
+THOROUGH=" C11-D C19-C C16-F "
 for d in seeded/*/; do
   n=$(basename "$d"); p=${n%%-*}; l=${n##*-}
   if [ $# -gt 0 ]; then case " $* " in *" $p "*) ;; *) continue;; esac; fi
+  if [ -f "$d/SUPERSEDED.txt" ]; then echo "SUPERSEDED  $n  (see $d/SUPERSEDED.txt)"; continue; fi
   tier=quick; case "$THOROUGH" in *" $n "*) tier=thorough;; esac
   tools/seedrun.py "$p" "$l" "/verif/seeded/$n" --skip-verify --scratch --tier $tier 2>&1 | tail -1
 done
